@@ -809,10 +809,10 @@ Theorem translate_wf_all : forall globals cic afuel orders f g,
   translate false globals cic afuel orders f = Some g ->
   wf_graph g /\ no_input_returned g = true.
 Proof.
-  intros globals cic afuel orders f g Hnd Htr. unfold translate in Htr.
-  destruct (Translate.tr_stmts globals cic afuel false (f_tparams f) stmt_depth_fuel true (f_body f) [] [rev (init_scope f)] [] (init_state f orders))
+  intros globals cic afuel orders f g Hnd Htr. rewrite (translate_eq globals) in Htr.
+  destruct (Translate.tr_stmts globals cic afuel false (f_tparams f) (S 11) true (f_body f) [] [rev (init_scope f)] [] (init_state f orders))
     as [[[[sc' outs] st'] nodes]|] eqn:Et; [|discriminate Htr]. inversion Htr; subst g. clear Htr.
-  destruct (stmts_wf_all globals cic afuel (f_tparams f) stmt_depth_fuel true (f_body f) [] _ [] _ sc' outs st' nodes (f_tparams f) Et)
+  destruct (stmts_wf_all globals cic afuel (f_tparams f) (S 11) true (f_body f) [] _ [] _ sc' outs st' nodes (f_tparams f) Et)
     as (G & _ & Nd & Ho & Hni & _).
   - cbn [init_state ts_used]. intros x Hx. apply -> in_rev. exact Hx.
   - apply init_scope_ok.
@@ -840,15 +840,6 @@ Definition exwf_f : func :=
                 SFor "i" (ELit (LInt 2))
                      [SIf (EVar "c") [SAssign "y" (EVar "t")] [SAssign "y" (EBin "Add" (EVar "y") (EVar "t"))]];
                 SReturn [EVar "y"]] |}.
-
-Definition count_op_all (op : string) : list node -> nat :=
-  fix go (ns : list node) : nat :=
-    match ns with
-    | [] => 0
-    | Node _ o _ _ _ subs :: t =>
-      (if String.eqb o op then 1 else 0) +
-      (fix gs (l : list (string * graph)) : nat := match l with [] => 0 | (_, Graph _ _ ns' _) :: r => go ns' + gs r end) subs + go t
-    end.
 
 Lemma exwf_hyps :
   exists g, NoDup (f_tparams exwf_f) /\ translate false [] (fun _ => None) 6 [] exwf_f = Some g /\
